@@ -5,7 +5,7 @@ from common import *
 from harness.shells import *
 
 LEVEL = 'proof'
-RULE = ('all writer formats x store basis/versions (sample in quick, all in thorough) x sampled element subsets, and generated dictionaries (mixed number '
+RULE = ('all writer formats x store basis/versions (a sample: 15 in quick, 400 in thorough, the corpus first) x sampled element subsets, and generated dictionaries (mixed number '
         'notations, l up to 12, ECP-only, fused); one case = (basis, format): every exponent, every non-zero coefficient of every multi-primitive function '
         '(in the contraction form the format prescribes) and every ECP number must occur among the text tokens with its exact decimal value; every element '
         'named; ECP electron counts stated. Gate: all 29 formats x all 64 subsets of the six function types (exhaustive). write_matrix: model vs implementation '
@@ -191,8 +191,8 @@ def run(ctx):
     bse = import_bse()
     from basis_set_exchange import writers
     R = Result('C04')
-    items = [('%s/%s' % p, p, '%s-%d' % (p[0], ctx.seed)) for p in sample_pairs(ctx, ctx.n(15, 10 ** 6))]
-    for i in range(ctx.n(30, 1500)):
+    items = [('%s/%s' % p, p, '%s-%d' % (p[0], ctx.seed)) for p in sample_pairs(ctx, ctx.n(15, 400))]
+    for i in range(ctx.n(30, 800)):
         g = genbasis.gen_basis(ctx.rng, kinds=(['ecpgap', 'ecpsingle', 'plain'] if i % 6 == 5 else None))
         if i % 3 == 1:
             # the role is free text for most writers but steers some (Q-Chem: $basis / $aux_basis); an ECP next to a fitting role is legal
